@@ -32,14 +32,18 @@ CLAIMED["C14"] = dict(
         "sort.Search, sparse-index seek)/HintBuffer/merge. C14_lookup_total (proofs/HintLookup.v): for ALL hash-sorted item lists, intervals and "
         "(hash, key) queries the byte-level lookup -- index loaded back from the file (C14_index_roundtrip), binary search, seek to the preceding "
         "index entry, scan -- returns the item iff it is present and NOT-FOUND otherwise, never an error; C14_dumped_lookup_total: the same on "
-        "every file HintBuffer.Dump writes. The proof needs the translated flag hint_get_offset_synced (the F1 repair). Finding F1 (lookup of an absent key above all hashes errors) is a refutation theorem "
+        "every file HintBuffer.Dump writes. The proof needs the translated flag hint_get_offset_synced (the F1 repair). "
+        "C14_merge_keeps_greatest_position / C14_merge_reports_collisions (proofs/HintMerge.v): for ANY number of source files in merge order the "
+        "k-way merge (min-heads, pop, mergeWriter grouping) yields exactly one entry per (hash, key) present in a source, the one with the "
+        "GREATEST (chunk, offset) position, in merge order, and the collision table afterwards has an entry for both keys of every pair of "
+        "source items with equal hash and different keys (earlier entries are never lost). Finding F1 (lookup of an absent key above all hashes errors) is a refutation theorem "
         "over the model parameterised by a flag translated from the source, and was repaired by a fix: commit; the flag is proved on for the "
         "current tree. Correspondence: files built through HintBuffer.Set/Dump compared byte for byte, read-back, index length, ~13k lookups "
         "per quick run (present / absent below, between, same-hash-other-key, above), k-way merge output and collision table; a python spec "
         "oracle (round-trip, found-iff-present-never-error, greatest-position-wins, same-hash groups reported) judges the implementation.",
-   note="PARTIAL: the merge spec (greatest position per key, every same-hash group reported) is established by correspondence + spec oracle, "
-        "not by a general theorem (proved: merged items come from the sources; no collision reported on collision-free inputs -- GcMerge.v). Trusted: Coq kernel, translator, Go harness, python oracle. No axioms.",
-   technique="Rocq proofs of hint-file round-trip and total lookup over a byte-level model + refutation/repair of the lookup defect; differential correspondence for lookup and merge",
+   note="All three clauses of the property are theorems over the model (round trip, total lookup, merge). Not proved: that the collision table "
+        "holds ONLY such groups (soundness of reports) and the byte-level writer of the merged file (it is the round-trip writer). Trusted: Coq kernel, translator, Go harness, python oracle. No axioms.",
+   technique="Rocq proofs of hint-file round-trip and total lookup over a byte-level model, of the k-way merge (greatest position per key, collision reporting) + refutation/repair of the lookup defect; differential correspondence for lookup and merge",
    design="6/C14")
 CLAIMED["C01"] = dict(
    text="Theorem C01_refines (coq/props/C01.v): for ALL configurations, ALL key sets on which the key hash does not collide and ALL histories "
